@@ -113,6 +113,7 @@ type mapIter struct {
 	visited string // component name holding the visited set (depth-1 comp indexed by iterator id)
 	id      Term
 	snapDom Term
+	str     Term // range over a string: the string (nil for a map range)
 }
 
 type unsupported struct{ msg string }
